@@ -11,6 +11,8 @@ Sizes == IF Tier = "quick" THEN {2, 3} ELSE {2, 3, 4}
 Asc(n) == {s \in [1..n -> 0..MaxX] : \A k \in 1..(n - 1) : s[k] < s[k + 1]}
 DomPool == UNION {Asc(n) : n \in Sizes}
 Rev(d) == [k \in 1..Len(d) |-> d[Len(d) + 1 - k]]
+(* neither ascending nor descending: first and last element are not the extremes (needs >= 3 points) *)
+Shuf(d) == IF Len(d) < 3 THEN Rev(d) ELSE [k \in 1..Len(d) |-> IF k = 1 THEN d[2] ELSE IF k = 2 THEN d[Len(d)] ELSE IF k = Len(d) THEN d[1] ELSE d[k]]
 (* deterministic sample arrays *)
 Y1(d) == [k \in 1..Len(d) |-> ((3 * d[k] + k) % 5) - 1]
 Y2(d) == [k \in 1..Len(d) |-> 2 * d[k] - 3]            \* affine: interpolation must be exact
@@ -27,10 +29,12 @@ Case(ds) ==
       cands |-> {[m |-> m, grid |-> Grid(ds, m), arrs |-> InterpAll(ds, ys, m),
                   cap12 |-> CaptureOnGrid(ds, InterpAll(ds, ys, m)[1], InterpAll(ds, ys, m)[2], m, DX)] : m \in ms}]
 Level2 == /\ pc = "key"
-          /\ \E d2 \in DomPool, variant \in {"asc", "rev", "three"} :
+          /\ \E d2 \in DomPool, variant \in {"asc", "rev", "shuf", "shuf1", "three"} :
                (variant = "three" => Tier # "quick" \/ Len(d2) = 2) /\
                out' = Case(IF variant = "asc" THEN <<key, d2>>
                            ELSE IF variant = "rev" THEN <<key, Rev(d2)>>
+                           ELSE IF variant = "shuf" THEN <<key, Shuf(d2)>>
+                           ELSE IF variant = "shuf1" THEN <<Shuf(key), d2>>
                            ELSE <<key, d2, Third>>)
           /\ pc' = "done" /\ key' = key
 Next == Level1 \/ Level2
